@@ -50,6 +50,17 @@ def evOfJson (j : Json) : Except String Ev := do
   | "close" => pure .close
   | e => throw s!"event {e}"
 
+/-- driver-level events: a model event, or "finish c" = caller c returns: `complete` if its channel holds a frame, else its
+    context is cancelled (`cancel`). -/
+inductive DEv where
+  | ev (e : Ev)
+  | finish (c : Nat)
+
+def devOfJson (j : Json) : Except String DEv := do
+  match ← getStr j "e" with
+  | "finish" => pure (.finish (← getNat j "c"))
+  | _ => pure (.ev (← evOfJson j))
+
 def outcomeStr : Outcome → String
   | .answer b => s!"answer:{b}"
   | .error => "error"
@@ -84,12 +95,18 @@ def handle (op : String) (j : Json) : Except String Json := do
   | "run" =>
     let k ← kindOfStr (← getStr j "kind")
     let start ← getNat j "start"
-    let evs ← (← getArr j "evs").toList.mapM evOfJson
-    let rec go (s : St) (idx : Nat) : List Ev → St × Option Nat
+    let evs ← (← getArr j "evs").toList.mapM devOfJson
+    let rec go (s : St) (idx : Nat) : List DEv → St × Option Nat
       | [] => (s, none)
-      | e :: es => match step k s e with
+      | .ev e :: es => match step k s e with
         | none => (s, some idx)
         | some s' => go s' (idx + 1) es
+      | .finish c :: es =>
+        match step k s (.complete c) with
+        | some s' => go s' (idx + 1) es
+        | none => match step k s (.cancel c) with
+          | some s' => go s' (idx + 1) es
+          | none => (s, some idx)
     let (s, dis) := go (init start) 0 evs
     let done := s.done.map (fun (c, o) => (toString c, Json.str (outcomeStr o)))
     pure (Json.mkObj [("done", Json.mkObj done),
